@@ -247,7 +247,7 @@ func runRefusalCase(t *Tracer, m *Meta, r *rand.Rand, c *TrieCase, loaded bool) 
 func genScan(t *Tracer, m *Meta, tier string, seed int64) {
 	r := rand.New(rand.NewSource(seed*104729 + 4))
 	quick := tier == "quick"
-	encs := []string{"i32", "s16", "none", "i64", "b4", "i8", "te"}
+	encs := []string{"i32", "s16", "none", "i64", "b4", "i8", "te", "opt4"}
 	complete := [][4]int{{1, 0, 0, 1}, {0, 0, 0, 1}, {2, 2, 2, 1}, {1, 1, 1, 0}, {0, 1, 1, 2}, {1, 1, 1, 1}}
 	// (1) universes: all starts x both inclusivities
 	budgetU := 500
